@@ -68,10 +68,14 @@ def check_node(spec, i, ins, outs):
         # taking for each member its most recent not-yet-used arrival
         exp = []
         used = set()
+        prev_tick = -1
         for o in outs:
             e = []
             for x in o[0]:
-                cands = [a for a in arr if a[1] is x and a[4] < o[3] and a[4] not in used]
+                # (timed_window_unique: only arrivals since the previous tick belong to this batch;
+                # the same object may have arrived, and been dropped as a duplicate, before it)
+                cands = [a for a in arr if a[1] is x and a[4] < o[3] and a[4] not in used
+                         and (k != "timed_window_unique" or a[4] > prev_tick)]
                 if not cands:
                     e = None
                     break
@@ -83,6 +87,7 @@ def check_node(spec, i, ins, outs):
                 used.add(a[4])
                 e.extend(ids(a[2]))
             exp.append(e)
+            prev_tick = o[3]
     else:
         return []
     for j, (g, e) in enumerate(zip(got, exp)):
